@@ -130,28 +130,104 @@ def ensure_tool(name, pkg):
 # workers
 # ---------------------------------------------------------------------------
 
-def run_workers(work, binary, prop, tier, seed0, total_runs, budget_s, extra_args=None, jobs=None, env_extra=None):
-    """Runs total_runs seeds across worker processes; returns list of outcomes."""
+class RunSet:
+    """What a batch of runs produced, held in bounded memory: aggregates over every run, and in full only the
+    runs that reported a violation (at most KEEP per (rule, signature): the rest are counted)."""
+    KEEP = 40
+
+    def __init__(self, keep_all=False):
+        self.n = 0
+        self.feats = collections.Counter()
+        self.distinct = set()
+        self.keyed = set()
+        self.sched = set()
+        self.steps = 0
+        self.sim_s = 0.0
+        self.samples = []
+        self.viol = []
+        self.viol_count = collections.Counter()
+        self.all = [] if keep_all else None
+
+    def add(self, o):
+        self.n += 1
+        for k, v in (o.get("features") or {}).items():
+            self.feats[k] += v
+        if o.get("nontrivial") and o.get("distinct"):
+            self.distinct.add(o["distinct"])
+        for k in ((o.get("extra") or {}).get("distinct_keys") or "").split("\n"):
+            if k:
+                self.keyed.add(k)
+        if o.get("sched"):
+            self.sched.add(o["sched"])
+        self.steps += o.get("steps", 0)
+        self.sim_s += o.get("sim_s", 0.0)
+        if o.get("sample") is not None and len(self.samples) < 3:
+            self.samples.append({"seed": o["seed"], "scenario": o["sample"]})
+        if self.all is not None:
+            self.all.append(o)
+        vs = o.get("violations") or []
+        if vs:
+            fresh = False
+            for v in vs:
+                key = (v["rule"], v["signature"])
+                self.viol_count[key] += 1
+                if self.viol_count[key] <= self.KEEP:
+                    fresh = True
+            if fresh:
+                self.viol.append(o)
+
+    def merge(self, other):
+        self.n += other.n
+        self.feats.update(other.feats)
+        self.distinct |= other.distinct
+        self.keyed |= other.keyed
+        self.sched |= other.sched
+        self.steps += other.steps
+        self.sim_s += other.sim_s
+        self.samples = (self.samples + other.samples)[:3]
+        self.viol += other.viol
+        self.viol_count.update(other.viol_count)
+        if self.all is not None and other.all is not None:
+            self.all += other.all
+        return self
+
+    __iadd__ = merge
+
+    def __add__(self, other):
+        r = RunSet(self.all is not None)
+        r.merge(self)
+        return r.merge(other)
+
+    def __len__(self):
+        return self.n
+
+    def __iter__(self):  # the runs kept in full: those with violations
+        return iter(self.viol)
+
+
+def run_workers(work, binary, prop, tier, seed0, total_runs, budget_s, extra_args=None, jobs=None, env_extra=None, keep_all=False):
+    """Runs total_runs seeds across worker processes; returns a RunSet. A worker process is recycled every CHUNK
+    runs: the race detector's bookkeeping grows with every goroutine a process has ever started."""
     jobs = jobs or NCPU
     jobs = max(1, min(jobs, total_runs))
     per = (total_runs + jobs - 1) // jobs
-    outs = []
-    lock = collections.deque()
+    chunk = int(os.environ.get("VERIF_CHUNK", "0")) or (1500 if binary.endswith("-race") else 20000)
 
     def one(i):
-        res = []
+        res = RunSet(keep_all)
         seed = seed0 + i
         left = per
         seg = 0
         t_end = time.time() + budget_s
-        while left > 0:
+        while left > 0 and (seg == 0 or time.time() < t_end):
             out = work.path("out-%s-%d-%d.jsonl" % (prop, i, seg))
             seg += 1
             env = dict(GOENV, GORACE="log_path=%s halt_on_error=0 exitcode=0" % work.path("race-%s-%d" % (prop, i)))
             if env_extra:
                 env.update(env_extra)
             remaining = max(5, int(t_end - time.time()))
-            cmd = [binary, "-prop", prop, "-seed", str(seed), "-stride", str(jobs), "-runs", str(left), "-tier", tier,
+            n = min(left, chunk)
+            cmd = [binary, "-prop", prop, "-seed", str(seed), "-stride", str(jobs), "-runs", str(n), "-tier", tier,
                    "-out", out, "-budget", "%ds" % remaining]
             if extra_args:
                 cmd += ["-args", extra_args]
@@ -159,30 +235,33 @@ def run_workers(work, binary, prop, tier, seed0, total_runs, budget_s, extra_arg
                 p = subprocess.run(cmd, env=env, stdout=subprocess.PIPE, stderr=subprocess.PIPE, timeout=remaining + 300)
             except subprocess.TimeoutExpired:
                 raise Trouble("worker %d timed out" % i)
-            got = []
+            got = 0
             if os.path.exists(out):
-                for l in open(out):
-                    l = l.strip()
-                    if l:
-                        try:
-                            got.append(json.loads(l))
-                        except ValueError:
-                            pass
-            res += got
+                with open(out) as fh:
+                    for l in fh:
+                        l = l.strip()
+                        if l:
+                            try:
+                                res.add(json.loads(l))
+                                got += 1
+                            except ValueError:
+                                pass
+                os.unlink(out)
             if p.returncode == 3:  # tainted: restart after the last seed
-                seed += len(got) * jobs
-                left -= len(got)
                 if not got:
                     raise Trouble("worker tainted without output: " + p.stderr.decode()[-2000:])
-                continue
-            if p.returncode != 0:
+            elif p.returncode != 0:
                 raise Trouble("worker exit %d: %s" % (p.returncode, p.stderr.decode("utf-8", "replace")[-4000:]))
-            break
+            elif got < n:
+                break  # the worker's own budget ran out
+            seed += got * jobs
+            left -= got
         return res
 
+    outs = RunSet(keep_all)
     with ThreadPoolExecutor(max_workers=jobs) as ex:
         for r in ex.map(one, range(jobs)):
-            outs += r
+            outs.merge(r)
     return outs
 
 
@@ -348,19 +427,20 @@ def triage(work, binary, prop, tier, outcomes, extra_args=None, env_extra=None, 
     for o in outcomes:
         for v in o.get("violations", []):
             groups.setdefault((v["rule"], v["signature"]), []).append((o, v))
+    counts = getattr(outcomes, "viol_count", {})
     n_new = n_known = 0
     details = []
     flaky = []
     for (rule, sig), items in groups.items():
         k = known_match(ks, prop, rule, sig)
         if k:
-            print("KNOWN-FINDING: property=%s %s [rule=%s signature=%s, %d occurrences in this run]" % (prop, k["what"], rule, sig, len(items)), flush=True)
+            print("KNOWN-FINDING: property=%s %s [rule=%s signature=%s, %d occurrences in this run]" % (prop, k["what"], rule, sig, counts.get((rule, sig), len(items))), flush=True)
             n_known += 1
             details.append({"rule": rule, "signature": sig, "known": True, "occurrences": len(items)})
             continue
         if rule in ("harness_panic", "harness_regex"):
             raise Trouble("harness failure: %s" % items[0][1]["detail"][:3000])
-        o, v = min(items, key=lambda it: len(it[0].get("tape") or []))
+        o, v = min([it for it in items if it[0].get("tape")] or items, key=lambda it: len(it[0].get("tape") or []))
         mo, mruns = o, 0
         if do_minimise and o.get("tape") and n_new < 2:
             log("minimising %s/%s from %d draws ..." % (rule, sig, len(o["tape"])))
@@ -408,31 +488,9 @@ def triage(work, binary, prop, tier, outcomes, extra_args=None, env_extra=None, 
     return n_new, n_known, details
 
 
-def summarise(outcomes):
-    feats = collections.Counter()
-    distinct = set()
-    keyed = set()
-    sched = set()
-    steps = 0
-    sim_s = 0.0
-    samples = []
-    for o in outcomes:
-        for k, v in (o.get("features") or {}).items():
-            feats[k] += v
-        if o.get("nontrivial") and o.get("distinct"):
-            distinct.add(o["distinct"])
-        for k in ((o.get("extra") or {}).get("distinct_keys") or "").split("\n"):
-            if k:
-                keyed.add(k)
-        if o.get("sched"):
-            sched.add(o["sched"])
-        steps += o.get("steps", 0)
-        sim_s += o.get("sim_s", 0.0)
-        if o.get("sample") is not None and len(samples) < 3:
-            samples.append({"seed": o["seed"], "scenario": o["sample"]})
-    if keyed:
-        distinct = keyed  # the engine named its own equivalence classes
-    return feats, distinct, sched, steps, sim_s, samples
+def summarise(rs):
+    distinct = rs.keyed if rs.keyed else rs.distinct  # keyed: the engine named its own equivalence classes
+    return collections.Counter(rs.feats), distinct, rs.sched, rs.steps, rs.sim_s, rs.samples
 
 
 # ---------------------------------------------------------------------------
@@ -629,8 +687,8 @@ def selftest_determinism(prop, nseeds):
     execs = 0
     for gmp, jobs in (("1", 1), ("4", 4), ("16", 16)):
         for rep in range(2):
-            outs = run_workers(work, binary, prop, "quick", 424242, nseeds, 900, cfg.get("args"), jobs=jobs, env_extra=dict(env0, GOMAXPROCS=gmp))
-            for o in outs:
+            outs = run_workers(work, binary, prop, "quick", 424242, nseeds, 900, cfg.get("args"), jobs=jobs, env_extra=dict(env0, GOMAXPROCS=gmp), keep_all=True)
+            for o in outs.all:
                 execs += 1
                 k = o["seed"]
                 d = (o["digest"], json.dumps(o.get("violations"), sort_keys=True))
